@@ -59,8 +59,8 @@ ASSUMPTIONS = [
     "empty plans and time-triggered steps with an explicit zero duration are kept out of the generators: the schema does not "
     "record the plan class of an empty plan nor distinguish `duration 0` from `no duration` (finding D-C20c)",
     "values outside int64 make the protobuf runtime raise in the writer: `writer rejects`, outside the property",
-    "actions with simulated effects, interpreted functions, processes / continuous effects: the writer raises or has no "
-    "field; generators stay inside assign/increase/decrease effects",
+    "simulated effects, interpreted functions, processes / continuous effects have no field in the schema: the (repaired) "
+    "writer raises for each of them = `writer rejects`; the modelled stream stays inside assign/increase/decrease effects",
     "the reader is given the environment of the original object",
     "ASCII names; decimal strings as printed by str(int) / str(Fraction) (int('+1'), Fraction('1.5') are not modelled)",
 ]
@@ -630,6 +630,9 @@ def rt_oracle(payload):
     if k == "htn":
         P = mk_htn(random.Random(int(payload[2])))
         return rt_check(P, lambda m: ProtobufReader().convert(m, P.environment), "hierarchical problem", same_problem)
+    if k == "simeff":
+        P = mk_simeff(random.Random(int(payload[2])))
+        return rt_check(P, lambda m: ProtobufReader().convert(m, P.environment), "problem with simulated effects", same_problem)
     raise ValueError(payload)
 
 
@@ -754,6 +757,32 @@ def mk_sched(r):
         P.add_effect(GlobalStartTiming(r.randint(1, 4)), f, 2)
     if r.random() < 0.4:
         P.add_quality_metric(MinimizeMakespan(env))
+    return P
+
+
+def mk_simeff(r):
+    """a problem with a simulated effect: no protobuf representation, the writer has to refuse it"""
+    from unified_planning.model import SimulatedEffect
+    env = Environment()
+    tm, em = env.type_manager, env.expression_manager
+    P = Problem("sim", env)
+    f = up.model.Fluent("f", tm.BoolType(), OrderedDict(), env)
+    x = up.model.Fluent("x", tm.IntType(0, 10), OrderedDict(), env)
+    P.add_fluent(f, default_initial_value=False)
+    P.add_fluent(x, default_initial_value=0)
+    if r.random() < 0.5:
+        a = InstantaneousAction("a", OrderedDict(), env)
+        a.add_precondition(em.Not(em.FluentExp(f)))
+        a.add_effect(f, True)
+        a.set_simulated_effect(SimulatedEffect([em.FluentExp(x)], lambda problem, state, params: [em.Int(3)]))
+    else:
+        a = DurativeAction("a", OrderedDict(), env)
+        a.set_duration_constraint(DurationInterval(em.Int(2), em.Int(2)))
+        a.add_effect(Timing(0, Timepoint(TimepointKind.END)), f, True)
+        a.set_simulated_effect(Timing(0, Timepoint(TimepointKind.START)),
+                               SimulatedEffect([em.FluentExp(x)], lambda problem, state, params: [em.Int(3)]))
+    P.add_action(a)
+    P.add_goal(em.FluentExp(f))
     return P
 
 
@@ -1264,6 +1293,8 @@ def cases(rng, tier):
         yield ["rt", "sched", str(r.randint(0, 10 ** 9))]
     for _ in range(n_htn):
         yield ["rt", "htn", str(r.randint(0, 10 ** 9))]
+    for i in range(2 if q else 6):
+        yield ["rt", "simeff", str(i)]
 
 
 def search(rng, tier):
@@ -1347,6 +1378,27 @@ def shrink(payload):
                     q = list(ps)
                     q[i] = s[:j] + s[j + 1:]
                     yield ["problem", q]
+        return
+    if k == "action":
+        a = payload[2]
+        for i in (3, 4) if a[0] == "action" else (4, 5):
+            for j in range(1, len(a[i])):
+                b = list(a)
+                b[i] = a[i][:j] + a[i][j + 1:]
+                yield ["action", payload[1], b]
+            if a[0] == "daction":
+                for j in range(1, len(a[i])):
+                    g = a[i][j]
+                    for m in range(1, len(g)):
+                        if len(g) > 2:
+                            b = list(a)
+                            b[i] = a[i][:j] + [g[:m] + g[m + 1:]] + a[i][j + 1:]
+                            yield ["action", payload[1], b]
+        if len(a[2]) > 0:
+            for j in range(len(a[2])):
+                b = list(a)
+                b[2] = a[2][:j] + a[2][j + 1:]
+                yield ["action", payload[1], b]
         return
     if k == "expr":
         e = payload[2]
